@@ -24,7 +24,14 @@ ASSUMPTIONS = [
     "(Connector::requests), never from the connector's internal subscription id",
     "instruments of one subscription set have distinct venue names; `MarketInstrumentData` instruments are "
     "subscribed with the venue's own symbol as name_exchange",
-    "future/option market strings are taken as the mapper formats them (routing between such instruments is checked)",
+    "future/option market strings are taken as the mapper formats them, EXCEPT the expiry component, which the "
+    "simulated venue renders itself from the contract's calendar expiry date in the venue's documented format: OKX "
+    "YYMMDD (doc comment of okx/market.rs::format_expiry: '230526' = 26th of May 2023; fixtures 'BTC-USD-191227', "
+    "'BTC-USD-231229-35000-C'), Gate.io YYYYMMDD (doc comment of gateio/market.rs::format_expiry: '20241231'; fixture "
+    "'ETH_USDT_QUARTERLY_20201225'); the future/option universes contain contracts expiring 2024-12-30 and 2025-12-30 "
+    "(ISO week-year != calendar year) next to ordinary expiries",
+    "the venue subscribes what the request names (a symbol it does not list is refused) and streams every listed "
+    "market under its own symbol",
     "Gate.io futures/perpetual/option trade amount: sign as delivered or absolute value are both accepted (DESIGN 5.4)",
     "Binance spot book-ticker messages carry no exchange time: the event time of that route is not constrained",
     "DynamicStreams::init itself (sockets) is not executed: the (ExchangeId, SubKind) arms it dispatches to are, "
@@ -206,7 +213,20 @@ def arms(ctx, info, need=True):
     for key, v in info.get("per_route", {}).items():
         h = hist.setdefault(key, {})
         for f, c in v.items():
-            h[f] = h.get(f, 0) + c
+            if isinstance(c, int):
+                h[f] = h.get(f, 0) + c
+        if v.get("request_mismatch"):
+            # the connector's subscription request names other venue symbols than those of the subscribed
+            # instruments: the venue streams other markets than the ones subscribed
+            route, fl = key.rsplit("/", 1)
+            ex = v["request_mismatch_example"]
+            ctx.violation("%s:subscribed->request-names-other-markets" % key,
+                          "%s (%s instruments): subscribing markets %s, the connector's request names %s but the venue's "
+                          "symbols of these instruments are %s (%d such subscription(s))" % (
+                              route, fl, ex["S"], json.dumps(ex["detail"]["requests_name"]),
+                              json.dumps(ex["detail"]["venue_symbols_of_subscribed_instruments"]), v["request_mismatch"]),
+                          {"route": route, "flavour": fl, "scenario": {"evs": [
+                              {"a": "Subscribe", "S": ex["S"], "off": ex["off"], "m": 0, "fs": []}]}})
         if need and not (v.get("messages_subscribed") and v.get("messages_unsubscribed") and v.get("subscribes")):
             raise vlib.ToolError("vacuous run: route %s exercised %s" % (key, v))
 
